@@ -402,8 +402,8 @@ func checkC09(c *hx.Ctx) {
 			if r.Chance(1, 4) {
 				delete(jwk, hx.Pick(r, []string{"kty", "crv", "x", "y"}))
 			}
-			if js == g.jws {
-				continue
+			if js == g.jws || sameDecodedJWS(js, g.jws) {
+				continue // textual variants that decode to the same header, payload and signature are not alterations
 			}
 			c.Eval()
 			kind := hx.Pick(r, []string{"verify", "verify", "parse"})
@@ -436,4 +436,20 @@ func fixedBytes(b *big.Int, size int) []byte {
 	bb := b.Bytes()
 	copy(out[size-len(bb):], bb)
 	return out
+}
+
+// sameDecodedJWS reports whether two compact strings decode (lenient base64url, as the library decodes) to the same three segments.
+func sameDecodedJWS(a, b string) bool {
+	pa, pb := strings.Split(a, "."), strings.Split(b, ".")
+	if len(pa) != 3 || len(pb) != 3 {
+		return false
+	}
+	for i := 0; i < 3; i++ {
+		da, e1 := ref.UnB64(pa[i])
+		db, e2 := ref.UnB64(pb[i])
+		if e1 != nil || e2 != nil || string(da) != string(db) {
+			return false
+		}
+	}
+	return true
 }
